@@ -7,6 +7,7 @@ dump, and hwloc_topology_check() in a child process."""
 import os
 import shutil
 import re
+import random
 
 from hv import common as C
 from gen import topo_sources as S
@@ -31,6 +32,72 @@ def flag_choices(rng, kind):
         if rng.random() < 0.3:
             f |= b
     return f
+
+
+def gen_interleaved_tree(rng, RG):
+    """Sibling subtrees with INTERLEAVED PU numbering and disallowed PUs: K packages of C cores, PU (p, c) numbered
+    c*K+p (or by a random permutation that keeps the siblings ordered), one or two intermediate levels, and an allowed
+    cpuset that leaves most packages a single core.  Loaded without INCLUDE_DISALLOWED the emptied cores go away, the
+    package keeps its complete cpuset (which still starts at the disallowed PU) and a KEEP_STRUCTURE filter on the
+    package level replaces each package by its only child (defect found while proving level_merge_keeps_children_ordered:
+    the children of the Machine ended up out of order)."""
+    k = rng.choice([2, 2, 3, 4])
+    ncore = rng.choice([2, 2, 3])
+    upper = rng.choice([["Package"], ["Package"], ["Group"], ["Package", "Die"], ["Package", "L3Cache"], ["Group", "Package"]])
+    root = RG.Node("Machine", 0)
+    numbering = {}
+    for p in range(k):
+        for c in range(ncore):
+            numbering[(p, c)] = c * k + p
+    if rng.random() < 0.3:          # shift whole rows, the first row keeps the packages ordered
+        rows = list(range(1, ncore))
+        rng.shuffle(rows)
+        for p in range(k):
+            for j, c in enumerate(rows):
+                numbering[(p, c)] = (j + 1) * k + (k - 1 - p if rng.random() < 0.5 else p)
+        # make the numbering a permutation again row by row
+        for j in range(1, ncore):
+            vals = sorted(numbering[(p, rows[j - 1])] for p in range(k))
+            if len(set(vals)) != k:
+                for p in range(k):
+                    numbering[(p, rows[j - 1])] = j * k + p
+    cnt = {}
+    for p in range(k):
+        cur = root
+        for t in upper:
+            cnt[t] = cnt.get(t, 0) + 1
+            n = RG.Node(t, cnt[t] - 1)
+            cur.n.append(n)
+            cur = n
+        for c in sorted(range(ncore), key=lambda c: numbering[(p, c)]):
+            co = RG.Node("Core", p * ncore + c)
+            co.n.append(RG.Node("PU", numbering[(p, c)]))
+            cur.n.append(co)
+    nn = RG.Node("NUMANode", 0)
+    nn.attrs["local_memory"] = str(1 << 20)
+    root.m.append(nn)
+
+    def fill(o):
+        o.cs = (1 << o.os) if o.ty == "PU" else 0
+        for c in o.n:
+            o.cs |= fill(c)
+        o.nds = 1
+        return o.cs
+    fill(root)
+    nn.cs, nn.nds = root.cs, 1
+    # keep one core per package in most packages; which one is kept varies from package to package
+    keep = 0
+    for p in range(k):
+        if rng.random() < 0.85:
+            keep |= 1 << numbering[(p, rng.randrange(ncore))]
+        else:
+            for c in range(ncore):
+                if rng.random() < 0.6:
+                    keep |= 1 << numbering[(p, c)]
+    if not keep:
+        keep = 1 << numbering[(0, ncore - 1)]
+    xml = RG.tree_to_xml(root, allowed_cs=keep)
+    return xml, upper
 
 
 def gen_chain_tree(rng, RG):
@@ -246,6 +313,23 @@ def make_cases(run, scratch):
                 cfg += ["filter 19 0"] + (["filter 16 0", "filter 17 0", "filter 18 0"] if rng.random() < 0.7 else []) + (["filter 15 0"] if rng.random() < 0.7 else [])
             cfg += ["flags %d" % flag_choices(rng, "xml")]
             cases.append(("chainxml:%d|%s" % (i, ";".join(cfg)), ["env HWLOC_LIBXML_IMPORT %d" % (i % 2)] + cfg + ["src xml " + path], "genxml"))
+        # interleaved numbering + disallowed PUs + the upper levels under KEEP_STRUCTURE (own random stream: adding
+        # cases here does not shift the other streams)
+        irng = random.Random("interleaved-%s" % run.seed)
+        for i in range(24 if quick else 600):
+            xml, upper = gen_interleaved_tree(irng, RG)
+            path = os.path.join(scratch.dir, "inter%d.xml" % i)
+            with open(path, "w") as f:
+                f.write(xml)
+            r = irng.random()
+            if r < 0.7:
+                cfg = ["filter %d 2" % tynum[t] for t in upper]
+            elif r < 0.85:
+                cfg = ["filter %d 2" % tynum[t] for t in upper + ["Core"]]
+            else:
+                cfg = ["filter %d %d" % (tynum[t], irng.choice([2, 0])) for t in upper]
+            cfg += ["flags %d" % (0 if irng.random() < 0.8 else flag_choices(irng, "xml"))]
+            cases.append(("interxml:%d|%s" % (i, ";".join(cfg)), ["env HWLOC_LIBXML_IMPORT %d" % (i % 2)] + cfg + ["src xml " + path], "genxml"))
     except Exception as e:
         run.cov["genxml_generator_unavailable"] = repr(e)
     xmls = S.xml_corpus()
